@@ -816,6 +816,10 @@ func run(t *rapid.T) {
 	nUsers := rapid.IntRange(2, 3).Draw(t, "users")
 	perBox := rapid.IntRange(1, 2).Draw(t, "per-box")
 
+	// the user IDs: made up by the server, or chosen by the application - then sometimes IDs that differ in letter case
+	// only, or where one is a prefix of another (they name the users' database files and store directories)
+	userIDs = [][]string{nil, nil, {"q7Jx2mPa", "q7jx2mPa", "Q7JX2MPA"}, {"user", "user1", "user10"}, {"a.b", "a_b", "A.B"}}[rapid.IntRange(0, 4).Draw(t, "userIDs")]
+
 	w := newWorld(t, credSets[set][:nUsers], perBox)
 	defer w.close()
 
